@@ -4,8 +4,8 @@
             validation: the validator is run on the output of the real block-local passes).
    Whole-function equivalence and the CFG-changing passes are NOT proved here: they are checked by
    differential execution (tools/props/c02.py). *)
-From PV Require Import Lib.Py Lib.Tac Spec.IRSyntax Spec.IRSem Model.OptValidate
-  Proofs.C02_rules Proofs.C02_validate Gen.c02_pipeline.
+From PV Require Import Lib.Py Lib.Tac Spec.IRSyntax Spec.IRSem Model.OptValidate Model.OptValidateFn
+  Proofs.C02_rules Proofs.C02_validate Proofs.C02_local Gen.c02_pipeline.
 From Coq Require Import String.
 Open Scope Z_scope.
 
@@ -89,24 +89,40 @@ Proof. exact c02_dead_alloc_moves_stack_refuted. Qed.
 Print Assumptions c02_dead_alloc_not_state_neutral_refuted.
 
 (* ---- layer B: the validator *)
-Theorem c02_norm_sound : forall c m ge f e0 args,
-  cfg_ok c -> env_typed c m ge f e0 args ->
-  forall res x, den c m ge e0 args res (norm c f x) = den c m ge e0 args res x.
+Theorem c02_norm_sound : forall c m ge f e0 args tl,
+  cfg_ok c -> (tl = true -> env_typed c m ge f e0 args) ->
+  forall res x, den c m ge e0 args res (norm c f tl x) = den c m ge e0 args res x.
 Proof. exact norm_sound. Qed.
 Print Assumptions c02_norm_sound.
 
-(* straight-line blocks (no calls, terminator excluded); whole functions: not proved (_partial) *)
-Theorem c02_check_block_sound_partial : forall c m ge f f' e0 args,
-  cfg_ok c -> env_typed c m ge f e0 args ->
+(* straight-line blocks (no calls, terminator excluded); tl = true additionally trusts the declared
+   types of values defined outside the block (hypothesis env_typed); whole functions: see below *)
+Theorem c02_check_block_sound_partial : forall c m ge f f' e0 args tl,
+  cfg_ok c -> (tl = true -> env_typed c m ge f e0 args) ->
   forall e0' rho, ren_ok m ge e0 args e0' rho ->
   forall l l' outs s e1 s1,
-    check_block c f f' rho l l' outs = true ->
+    check_block c f tl f' rho l l' outs = true ->
     run_simple c m ge f args l e0 s = ODone (e1, s1) ->
     exists e1', run_simple c m ge f' args l' e0' s = ODone (e1', s1) /\
       (forall r r', In (r, r') outs ->
          eval_ref m ge false e1' args r' = eval_ref m ge false e1 args r).
 Proof. exact check_block_sound. Qed.
 Print Assumptions c02_check_block_sound_partial.
+
+(* whole modules, block-local passes: same blocks, per-segment check_block (tl = false: no typing
+   hypothesis), calls matched in order, phi inputs and terminator operands related by the value
+   renaming computed from the value names.  Same fuel, same final state, same result. *)
+Theorem c02_check_local_sound : forall c m m', cfg_ok c -> check_modul c m m' = true ->
+  forall fname args s n r s1,
+    run_function c m fname args s n = ODone (r, s1) ->
+    run_function c m' fname args s n = ODone (r, s1).
+Proof. exact check_modul_sound. Qed.
+Print Assumptions c02_check_local_sound.
+
+Theorem c02_check_local_run_main : forall c m m', cfg_ok c -> check_modul c m m' = true ->
+  forall fname args n res, run_main c m fname args n = ODone res -> run_main c m' fname args n = ODone res.
+Proof. exact check_modul_run_main. Qed.
+Print Assumptions c02_check_local_run_main.
 
 (* ---- tie I: every pass of api.optimize and every pass class of ppci/opt is covered by the check *)
 Definition c02_covered : list string :=
@@ -122,7 +138,7 @@ Print Assumptions c02_pipeline_covered.
 (* non-vacuity: the hypotheses of the validator theorem are inhabited and the validator accepts a
    real rewrite (y = x + 0; r = y * 2  ~~>  r = x * 2) and rejects a wrong fold *)
 Example c02_nonvacuous :
-  check_block default_cfg vf vf []
+  check_block default_cfg vf true vf []
     [IConst 1 "z" I32 (CInt 0); IBinop 2 "y" I32 Add (Param 0) (Loc 1); IConst 3 "two" I32 (CInt 2);
      IBinop 4 "r" I32 Mul (Loc 2) (Loc 3)]
     [IConst 1 "z" I32 (CInt 0); IConst 3 "two" I32 (CInt 2); IBinop 4 "r" I32 Mul (Param 0) (Loc 3)]
